@@ -257,6 +257,11 @@ def c13_year_crossing(v, spec):
     # ~15000 steps, uamiv.Read too few) while the memory-map reader counts
     # records.
     pr = v.get('problems') or []
+    if v['kind'].startswith('reader-does-not-terminate:') and \
+            v.get('reader') == 'Read' and _crosses_year(spec):
+        # the same wrong count (tens of thousands of steps) makes the record
+        # reader walk the file that many times: the step budget runs out
+        return True
     return (v['kind'].startswith('readers-disagree:') and _crosses_year(spec)
             and bool(pr) and any('dimension TSTEP' in p for p in pr) and
             all(('TSTEP' in p) or ('shape' in p) or ('TFLAG' in p)
